@@ -873,6 +873,104 @@ def r28_box_leak(toks, log):
         out.append(toks[i]); i += 1
     return out
 
+def r29_deasync(toks, log):
+    """R29 (only items whose selector says `deasync: true`): the body of ONE task seen as sequential code.
+    `async fn` -> `fn`; `.await` is dropped (an awaited call becomes a call of a shim that returns the future's output: what other tasks do
+    meanwhile is whatever the shim's contract allows); `tokio::select! { P1 = F1 => B1, P2 = F2 => B2 .. }` ->
+    `match verif_select(n) { 0 => { let P1 = F1; B1 } .. _ => { let Pn = Fn; Bn } }` (any branch may be the one that completes;
+    dropping the futures of the other branches is not modelled)."""
+    out = []
+    i = 0
+    n = len(toks)
+    while i < n:
+        t = toks[i]
+        if t.text == "async" and i + 1 < n and toks[i + 1].text == "fn":
+            log.add("R29", t, "async fn")
+            toks[i + 1] = toks[i + 1].clone(ws=t.ws)
+            i += 1
+            continue
+        if t.text == "." and i + 1 < n and toks[i + 1].text == "await":
+            log.add("R29", t, ".await")
+            i += 2
+            continue
+        if t.text == "tokio" and i + 4 < n and [x.text for x in toks[i + 1:i + 4]] == ["::", "select", "!"] and toks[i + 4].text == "{":
+            c = match_close(toks, i + 4)
+            inner = toks[i + 5:c]
+            branches = []
+            k = 0
+            m = len(inner)
+            def depth_scan(k, stop):
+                d = 0
+                while k < m:
+                    x = inner[k].text
+                    if d == 0 and x in stop:
+                        return k
+                    if x in OPEN: d += 1
+                    elif x in (")", "]", "}"): d -= 1
+                    k += 1
+                return k
+            while k < m:
+                e = depth_scan(k, ("=",))
+                pat = inner[k:e]
+                a = depth_scan(e + 1, ("=>",))
+                fut = inner[e + 1:a]
+                b = a + 1
+                if b < m and inner[b].text == "{":
+                    # find the matching close inside `inner`
+                    d = 0; q = b
+                    while True:
+                        if inner[q].text in OPEN: d += 1
+                        elif inner[q].text in (")", "]", "}"):
+                            d -= 1
+                            if d == 0: break
+                        q += 1
+                    body = inner[b:q + 1]
+                    k = q + 1
+                    if k < m and inner[k].text == ",": k += 1
+                else:
+                    q = depth_scan(b, (",",))
+                    body = gen("{", inner[b], " ") + inner[b:q] + gen("}", inner[q - 1], " ")
+                    k = q + 1
+                branches.append((pat, fut, body))
+            log.add("R29", t, "tokio::select! with %d branches" % len(branches))
+            out += gen("match verif_select(%d) {" % len(branches), t)
+            for bi, (pat, fut, body) in enumerate(branches):
+                arm = ("%d" % bi) if bi + 1 < len(branches) else "_"
+                out += gen(arm + " => { let", pat[0], pat[0].ws)
+                pat2 = [x.clone() for x in pat]; pat2[0].ws = " "
+                fut2 = r29_deasync([x.clone() for x in fut], log)
+                body2 = r29_deasync([x.clone() for x in body], log)
+                out += pat2 + gen("=", pat[-1], " ") + fut2 + gen(";", fut[-1], "") + body2 + gen("}", body[-1], " ")
+            out += gen("}", toks[c], toks[c].ws)
+            i = c + 1
+            continue
+        out.append(t); i += 1
+    return out
+
+def r30_clone_from(toks, log):
+    """R30: the statement `RECV.clone_from(&E);` -> `RECV = E.clone();` (the documented default of Clone::clone_from; Verus has no clone_from)."""
+    out = []
+    i = 0
+    n = len(toks)
+    while i < n:
+        t = toks[i]
+        if t.text == "." and i + 3 < n and toks[i + 1].text == "clone_from" and toks[i + 2].text == "(" and toks[i + 3].text == "&":
+            c = match_close(toks, i + 2)
+            if c + 1 < n and toks[c + 1].text == ";":
+                # receiver = tokens of `out` back to the statement start
+                j = len(out)
+                while j > 0 and out[j - 1].text not in (";", "{", "}"):
+                    j -= 1
+                if j < len(out):
+                    log.add("R30", t, render(out[j:]) + render(toks[i:c + 1]))
+                    arg = [x.clone() for x in toks[i + 4:c]]
+                    arg[0] = arg[0].clone(ws=" ")
+                    out += gen("=", t, " ") + arg + gen(".clone()", toks[c], "")
+                    i = c + 1
+                    continue
+        out.append(t); i += 1
+    return out
+
 def r26_pin_self(toks, log):
     """R26: a poll-style method of an `Unpin` type: receiver `mut self: Pin<&mut Self>` -> `&mut self`
     (for an Unpin type Pin<&mut Self> derefs to &mut Self; pinning itself is not modelled)."""
@@ -913,6 +1011,8 @@ def r27_ready(toks, log):
 def apply_item_rewrites(toks, log, opts=None):
     opts = opts or {}
     toks = r6_derives_and_attrs(toks, log, opts.get("derives"))
+    if opts.get("deasync"):
+        toks = r29_deasync(toks, log)
     toks = r11_visibility(toks, log)
     toks = r18_bytestr_consts(toks, log)
     toks = r18b_bytestr_inline(toks, log)
@@ -929,6 +1029,7 @@ def apply_item_rewrites(toks, log, opts=None):
         toks = r25b_vec_range(toks, log, opts["vec_range"])
     toks = r24_hoist_local_types(toks, log)
     toks = r26_pin_self(toks, log)
+    toks = r30_clone_from(toks, log)
     toks = r28_box_leak(toks, log)
     toks = r27_ready(toks, log)
     if opts.get("str_ops"):
